@@ -247,6 +247,19 @@ class Check(PropertyCheck):
             if line.startswith("mbad") and out.startswith("bad ") and not out.endswith("raise"):
                 res.append(("not-rejected", f"`{line}`: the illegal decision {out.split()[1:3]} of the multi-instance "
                             f"environment was accepted"))
+            if index == len(lines) - 1 and any(l.startswith("mbad") for l in lines):
+                # as if never made: a twin environment that receives the same lines without the rejected decisions answers
+                # every other line identically (instances, observations, rewards, flags)
+                from impl_ext import ImplEnv
+                twin = ImplEnv(filter_style=scenario.meta.get("filter_style", "callable"))
+                for i, l in enumerate(lines):
+                    if l.startswith("mbad") or l.startswith("mark"):
+                        continue
+                    t_out = twin.exec(l)
+                    if t_out != outs[i]:
+                        res.append(("as-if-never", f"line {i} `{l[:40]}`: with the rejected decisions before it the reply is "
+                                    f"{outs[i][:160]}, without them {t_out[:160]}"))
+                        break
             return res
         if scenario.meta.get("kind") == "env":
             return self.env_oracle(impl, scenario, index, line, out, ctx)
